@@ -2924,6 +2924,12 @@ class Interp:
             return NoneV()
         if name in ("functools.partial", "partial") and args:
             return PartialV(args[0], args[1:], dict(kwargs))
+        if name in ("functools.lru_cache", "lru_cache", "functools.cache", "cache", "<memoising-wrapper>"):
+            # `lru_cache(maxsize=None)(f)` / `cache(f)`: the wrapper answers what `f` answers (shared caches are the business of R5)
+            if len(args) == 1 and not kwargs and isinstance(args[0], (Fn, BoundAPI, PartialV, Obj, AltV)):
+                return args[0]
+            if name != "<memoising-wrapper>" and not any(isinstance(a, (Fn, BoundAPI, PartialV, Obj, AltV)) for a in args):
+                return Builtin("<memoising-wrapper>")
         if name in ("operator.methodcaller", "methodcaller") and args and isinstance(args[0], Const) and isinstance(args[0].value, str):
             return PartialV(Builtin("<methodcaller>"), [args[0], *args[1:]], dict(kwargs))
         if name == "<methodcaller>" and len(args) >= 2 and isinstance(args[0], Const):
